@@ -155,7 +155,7 @@ def main_loop_analysis(prog: Program, rep: Report, rule: str = "R19.2") -> None:
         rep.bad(rule, fi.qual, "time loop", f"expected exactly one loop calling model.update, found {len(loops)}", fi.loc())
         return
     loop = loops[0]
-    tc = trip_count(loop.iter)
+    tc = trip_count(loop.iter, fi.node)
     rep.check(
         rule,
         fi.qual,
@@ -176,8 +176,13 @@ def _is_time_loop(node) -> bool:
     return False
 
 
-def trip_count(it: ast.expr):
-    """range(a) -> a; range(0, a) -> a; range(a, b)/step -> None (not normalised here)."""
+def trip_count(it: ast.expr, fn: ast.AST = None):
+    """range(a) -> a; range(0, a) -> a; range(a, b)/step -> None (not normalised here).
+    With `fn`, single-assignment local temporaries are expanded first (n = timer.Nsteps; range(n))."""
+    if fn is not None:
+        from ..program import expand_locals
+
+        it = expand_locals(it, fn)
     if isinstance(it, ast.Call) and isinstance(it.func, ast.Name) and it.func.id == "range" and not it.keywords:
         if len(it.args) == 1:
             return unparse(it.args[0])
